@@ -5,6 +5,8 @@
 import Asn1.Generated
 import Asn1.X690
 import Proofs.TagLen
+import Proofs.X690Prim
+import Proofs.X690Der
 
 namespace Asn1.C03
 
@@ -30,5 +32,80 @@ theorem der_table :
     Generated.derEnc.boolTrue = 255 ∧ Generated.derEncBoolFalse = 0 ∧
     Generated.derEnc.sortSetOf = true ∧ Generated.derEnc.setOrder = .dynamic := by
   decide
+
+/-! ### the encoder's octets are those of the independent X.690 transcription -/
+
+/-- identifier octets (X.690 8.1.2), every class, form and tag number -/
+theorem identifier_is_x690 (t : Tag) (isConstructed : Bool) :
+    encodeTag t isConstructed = X690.ident t.cls (t.constructed || isConstructed) t.num :=
+  (ident_eq t isConstructed).symm
+
+/-- definite length octets in the fewest octets (X.690 8.1.3, 10.1), every length the encoder accepts -/
+theorem length_is_x690 (n : Nat) (l : Bytes) (h : encodeLength n = some l) : l = X690.len n :=
+  (len_eq n l h).symm
+
+/-- INTEGER / ENUMERATED contents: two's complement in the fewest octets (X.690 8.3), every integer -/
+theorem integer_is_x690 (z : Int) : intToBytes z = X690.intOctets z := (intOctets_eq z).symm
+
+/-- BIT STRING contents: unused-bit count, bits from the top, unused bits zero (X.690 8.6, 11.2) -/
+theorem bitstring_is_x690 (bs : List Bool) : bitsToContent bs = X690.bitOctets bs := (bitOctets_eq bs).symm
+
+/-- OBJECT IDENTIFIER contents and the arcs refused (X.690 8.19) -/
+theorem oid_is_x690 (arcs : List Nat) : oidToContent arcs = X690.oidOctets arcs := (oidOctets_eq arcs).symm
+
+/-- REAL, binary encoding base 2 with odd mantissa and minimal exponent (X.690 8.5, 11.3) -/
+theorem real_is_x690 (m e : Int) : realBinToContent m e = X690.realOctets (.fin m 2 e) := (realOctets_eq m e).symm
+
+theorem der_cfg : DerCfg Generated.derEnc := ⟨by decide, by decide, by decide, by decide⟩
+
+/-- **the DER encoder's output is the X.690 distinguished encoding**, for every type of the region
+    (no ANY; REAL in base 2), every value of the type to which finding E3 (a present OPTIONAL member
+    with empty contents is left out) does not apply, whatever options the caller passes:
+    headers in the minimal definite form, minimal contents, FF for TRUE, DEFAULT-valued members
+    absent, SET members in canonical tag order, SET OF elements in ascending order of their
+    encodings — as computed by `X690.der`, which shares no code with the encoder model. -/
+theorem der_encoder_is_x690 (o : EncOpts) (hi : o.ifNotEmpty = false) (t : Ty) (v : Val) (b : Bytes)
+    (hreg : t.reg true Generated.derEnc true = true) (hwf : t.WF = true) (hty : HasType t v = true)
+    (hn : noE3 true t v = true) (h : encItem Generated.derEnc o t v = .ok b) :
+    X690.der t v = some b :=
+  der_is_x690 Generated.derEnc der_cfg o rfl rfl hi t v b hreg hwf hty hn h
+
+/-- the hypotheses are met by a SET with a DEFAULT member equal to its default, an explicitly and an
+    implicitly tagged member out of tag order, and a SET OF with elements out of order -/
+example :
+    let t : Ty := .set (.cons .req (.tagged true .context 5 (.prim .boolean))
+      (.cons (.dflt (.int 7)) (.prim .integer)
+        (.cons .req (.tagged false .application 1 (.setOf (.prim (.str 4)))) .nil)))
+    let v : Val := .seq [.bool true, .int 7, .seqOf [.str [9, 9], .str [1]]]
+    t.reg true Generated.derEnc true = true ∧ t.WF = true ∧ HasType t v = true ∧ noE3 true t v = true := by
+  decide +kernel
+
+/-- on a record: the encoder's octets, and hence (by the theorem) those of the transcription -/
+example :
+    X690.der
+      (.seq (.cons .req (.tagged true .context 5 (.prim .boolean))
+        (.cons (.dflt (.int 7)) (.prim .integer)
+          (.cons .req (.tagged false .application 1 (.setOf (.prim (.str 4)))) .nil))))
+      (.seq [.bool true, .int 7, .seqOf [.str [9, 9]]])
+      = some [0x30, 0x0b, 0xa5, 0x03, 0x01, 0x01, 0xff, 0x61, 0x04, 0x04, 0x02, 0x09, 0x09] := by
+  have h : (encItem Generated.derEnc {}
+      (.seq (.cons .req (.tagged true .context 5 (.prim .boolean))
+        (.cons (.dflt (.int 7)) (.prim .integer)
+          (.cons .req (.tagged false .application 1 (.setOf (.prim (.str 4)))) .nil))))
+      (.seq [.bool true, .int 7, .seqOf [.str [9, 9]]])).toOption
+        = some [0x30, 0x0b, 0xa5, 0x03, 0x01, 0x01, 0xff, 0x61, 0x04, 0x04, 0x02, 0x09, 0x09] := by
+    decide +kernel
+  cases he : encItem Generated.derEnc {}
+      (.seq (.cons .req (.tagged true .context 5 (.prim .boolean))
+        (.cons (.dflt (.int 7)) (.prim .integer)
+          (.cons .req (.tagged false .application 1 (.setOf (.prim (.str 4)))) .nil))))
+      (.seq [.bool true, .int 7, .seqOf [.str [9, 9]]]) with
+  | error e => rw [he] at h; simp [Except.toOption] at h
+  | ok b =>
+    rw [he] at h
+    simp only [Except.toOption, Option.some.injEq] at h
+    subst h
+    exact der_encoder_is_x690 {} rfl _ _ _ (by decide +kernel) (by decide +kernel) (by decide +kernel)
+      (by decide +kernel) he
 
 end Asn1.C03
